@@ -239,6 +239,9 @@ class Check:
             elif rc == 3:
                 res = json.load(open(out)) if os.path.isfile(out) else None
                 self.harness_errors.append(res["harness_error"] if res else err[-4000:])
+            elif rc in (1, 2):
+                # an uncaught Python exception in the worker: a broken harness, never a verdict
+                self.harness_errors.append("worker %d exited %d: %s" % (i, rc, err[-3000:]))
             else:
                 # crash: candidate is the last case written
                 if self.violations:
@@ -481,7 +484,7 @@ class Check:
             return 2
         log("[%s] ok: %d cases (+%d fuzz execs, %d inner), %d distinct non-trivial, %.1fs" % (
             self.pid, self.merged.evaluations, self.fuzz_execs, self.merged.inner,
-            len(self.merged.nontrivial), time.time() - self.t0))
+            len(self.merged.nontrivial) + self.merged.enumerated_nontrivial, time.time() - self.t0))
         return 0
 
     def run_replay(self, path):
